@@ -152,7 +152,7 @@ Definition new_paths (x : xform) (l : lstate) : list (path * tid) :=
                               | None => []
                               end) ids).
 
-(* _apply_insertions *)
+(* _apply_insertions, first loop: rename out of limbo, parent-to-child *)
 Fixpoint insertion_ops (x : xform) (nps : list (path * tid)) (l : lstate) : list pop * lstate :=
   match nps with
   | [] => ([], l)
@@ -161,10 +161,16 @@ Fixpoint insertion_ops (x : xform) (nps : list (path * tid)) (l : lstate) : list
         if memt t (l_needs l)
         then let '(ln, l1) := limbo_name x l t in ([PRename true ln p], l1)
         else ([], l) in
-      let chm := match assoc t (x_new_exec x) with Some b => [PChmod p b] | None => [] end in
       let '(ops, l') := insertion_ops x rest l1 in
-      (ren ++ chm ++ ops, l')
+      (ren ++ ops, l')
   end.
+
+(* _apply_insertions, second loop (since 54fc383): the executable bits, once every rename succeeded *)
+Definition chmod_ops (x : xform) (nps : list (path * tid)) : list (path * bool) :=
+  flat_map (fun pt => match assoc (snd pt) (x_new_exec x) with
+                      | Some b => [(fst pt, b)]
+                      | None => []
+                      end) nps.
 
 Definition init_lstate (x : xform) : lstate :=
   {| l_files := x_limbo_files x; l_children_names := x_limbo_children_names x;
@@ -184,6 +190,7 @@ Definition compile (x : xform) : compiled :=
   (* for _path, trans_id in new_paths: if trans_id in self._limbo_files: del self._limbo_files[trans_id] *)
   let left := filter (fun e => negb (memt (fst e) (map snd nps))) (l_files l2) in
   {| c_prog := {| g_phase := rops ++ iops;
+                  g_chmods := chmod_ops x nps;
                   g_deletions := dels;
                   g_inv_new := x_inv_new x;
                   g_fin_files := fin_list left (x_stale x);
@@ -207,7 +214,7 @@ Definition finalize_after (x : xform) (o : outcome) : fs * option exc :=
   match o_stage o with
   | SPhase =>
       let g := apply_prog x in
-      let g' := {| g_phase := []; g_deletions := []; g_inv_new := []; g_fin_files := c_fin_failure (compile x);
+      let g' := {| g_phase := []; g_chmods := []; g_deletions := []; g_inv_new := []; g_fin_files := c_fin_failure (compile x);
                    g_limbodir := g_limbodir g; g_deletiondir := g_deletiondir g |} in
       let '(f, _, e) := run_fin g' None EIO (o_fs o) [] in (f, e)
   | SDel =>
